@@ -88,5 +88,3 @@ func (p *Path) wgAdd(fr *frame, pos token.Pos, wg Value, d *Term) { p.unsupporte
 func (p *Path) wgWait(fr *frame, wg Value)                        { p.unsupported("WaitGroup") }
 func (p *Path) condWait(fr *frame, pos token.Pos, c Value)        { p.unsupported("Cond.Wait") }
 func (p *Path) condSignal(fr *frame, c Value, all bool)           {}
-
-func (p *Path) tryIfConvert(fr *frame, instr *ssa.If, c *Term) (Value, bool) { return nil, false }
